@@ -342,6 +342,18 @@ class RealStorageBanana(RealBanana):
             ready_deferred.addBoth(lambda res: self.receivedObject(obj))
 
 
+class StdBanana(RealBanana):
+    """RootUnslicer + standard unslicers; delivered objects are logged in the code layout of lib/Unsl.v's uval_code"""
+
+    def receivedObject(self, obj):
+        from harness.c07_std import ucode
+        self.vlog.append(("deliver", ucode(obj)))
+
+    def reportReceiveError(self, f):
+        self.errmsg = "%s: %s" % (f.type.__name__, str(f.value)[:200])
+        self.vlog.append(("receive-error", f.type.__name__))
+
+
 def run_real(stream, chunks, cls=None):
     p = (cls or RealBanana)()
     pos = 0
